@@ -258,4 +258,17 @@ static inline void spec_step(spec_state* st, const uint8_t* sp, uint8_t opcode, 
 	spec_step_k(st, sp, spec_kind_of(opcode), dst, src, mod, imm32, lw, v2, m4, frac22);
 }
 
+
+/* ---- call-free forms (CBMC loop invariants must not contain function calls) ----
+   opcode ceilings = cumulative sums of spec_freq (checked against spec_kind_of by obligation spec_macros_agree) */
+#define SPEC_PROGRAM_SIZE_V1 256   /* doc/specs.md Table 1.2 */
+#define SPEC_PROGRAM_SIZE_V2 384   /* doc/configuration.md (v2) */
+#define SPEC_ZP2_X(x) ((((uint32_t)(x)) & (((uint32_t)(x)) - 1u)) == 0u)
+#define SPEC_IS_CBRANCH_X(op) ((op) >= 214 && (op) < 239)
+#define SPEC_MODIFIES_X(op, dst, src, imm32, R) ( \
+	   ((op) < 120 && !((op) >= 76 && (op) < 84) && !((op) >= 116 && (op) < 120) && (((dst) & 7) == (R))) \
+	|| ((op) >= 76 && (op) < 84 && (((dst) & 7) == (R)) && !SPEC_ZP2_X(imm32)) \
+	|| ((op) >= 116 && (op) < 120 && (((dst) & 7) != ((src) & 7)) && ((((dst) & 7) == (R)) || (((src) & 7) == (R)))) \
+	|| SPEC_IS_CBRANCH_X(op))
+
 #endif
